@@ -112,6 +112,11 @@ func init() {
 				d.Lean = m
 				d.Prop = "C12,C01"
 				rep.Monitor = append(rep.Monitor, d)
+			} else if m := exactMonitor(c); m != "" {
+				d := caseDisagreement(c)
+				d.Lean = m
+				d.Prop = "C12"
+				rep.Monitor = append(rep.Monitor, d)
 			}
 		}
 	}
@@ -119,16 +124,36 @@ func init() {
 
 func init() {
 	postChecks["proj"] = func(cases []*Case, rep *Report) {
-		for _, c := range cases {
-			if c.Op != "proj" {
-				continue
-			}
-			if strings.HasPrefix(c.GoOut, "PANIC") || strings.HasPrefix(c.GoOut, "FATAL") || strings.HasPrefix(c.GoOut, "TIMEOUT") {
-				d := caseDisagreement(c)
-				d.Lean = "crash: " + c.GoOut + " " + c.Detail
-				d.Prop = "C01"
-				rep.Monitor = append(rep.Monitor, d)
+		rep.Rule = "corpus files and include projects, mutations, token/line soups, rendered models in random layouts, rendered models split into include trees, random include graphs; non-trivial = distinct outputs"
+		projPost(cases, rep)
+	}
+}
+
+// exactMonitor (C12b): for a document rendered from a tree, the scanner's lexeme stream must be
+// exactly the pieces it was rendered from.
+func exactMonitor(c *Case) string {
+	if len(c.Exp) == 0 {
+		return ""
+	}
+	lex, end, ok := parseScanOut(c.GoOut)
+	if !ok {
+		return ""
+	}
+	if end != "eof" {
+		return "a rendered well-formed document is rejected by the scanner: " + end
+	}
+	if len(lex) != len(c.Exp) {
+		for i := 0; i < len(lex) && i < len(c.Exp); i++ {
+			if lex[i].ty != c.Exp[i].Ty || lex[i].b != int64(c.Exp[i].B) || lex[i].e != int64(c.Exp[i].E) {
+				return fmt.Sprintf("lexeme #%d is %s[%d:%d], the document was rendered from %s[%d:%d] (%d lexemes vs %d)", i, lex[i].ty, lex[i].b, lex[i].e, c.Exp[i].Ty, c.Exp[i].B, c.Exp[i].E, len(lex), len(c.Exp))
 			}
 		}
+		return fmt.Sprintf("%d lexemes, the document was rendered from %d", len(lex), len(c.Exp))
 	}
+	for i := range lex {
+		if lex[i].ty != c.Exp[i].Ty || lex[i].b != int64(c.Exp[i].B) || lex[i].e != int64(c.Exp[i].E) {
+			return fmt.Sprintf("lexeme #%d is %s[%d:%d], the document was rendered from %s[%d:%d]", i, lex[i].ty, lex[i].b, lex[i].e, c.Exp[i].Ty, c.Exp[i].B, c.Exp[i].E)
+		}
+	}
+	return ""
 }
